@@ -451,3 +451,389 @@ func init() {
 }
 
 func frostSigZ(s frost.Signature) curve.Scalar { return s.VerifZ() }
+
+// ---- refresh histories (C08) and derivation (C14) ---------------------------------------------------
+
+type material struct {
+	kind string
+	ids  party.IDSlice
+	t    int
+	fr   map[party.ID]*frost.Config
+	tp   map[party.ID]*frost.TaprootConfig
+	cm   map[party.ID]*cmp.Config
+	dr   *doerner.ConfigReceiver
+	ds   *doerner.ConfigSender
+}
+
+func (m *material) dump() []J {
+	ps := []J{}
+	switch m.kind {
+	case "frost":
+		for _, id := range m.ids {
+			if m.fr[id] != nil {
+				ps = append(ps, frostCfgJ(m.fr[id]))
+			}
+		}
+	case "frost-taproot":
+		for _, id := range m.ids {
+			if m.tp[id] != nil {
+				ps = append(ps, taprootCfgJ(m.tp[id]))
+			}
+		}
+	case "cmp":
+		for _, id := range m.ids {
+			if m.cm[id] != nil {
+				ps = append(ps, cmpCfgJ(m.cm[id]))
+			}
+		}
+	case "doerner":
+		ps = doernerJ(m.ids[0], m.ids[1], m.dr, m.ds)
+	}
+	return ps
+}
+
+func (m *material) complete() bool {
+	switch m.kind {
+	case "frost":
+		return len(m.fr) == len(m.ids)
+	case "frost-taproot":
+		return len(m.tp) == len(m.ids)
+	case "cmp":
+		return len(m.cm) == len(m.ids)
+	}
+	return m.dr != nil && m.ds != nil
+}
+
+func newMaterial(c *Ctx, kind string, n, t int, sid []byte) (*material, sessionResult) {
+	m := &material{kind: kind, t: t}
+	var res sessionResult
+	switch kind {
+	case "frost":
+		m.ids = genIDs(c, n)
+		m.fr, _, res = frostKeygen(c, m.ids, t, false, sid)
+	case "frost-taproot":
+		m.ids = genIDs(c, n)
+		_, m.tp, res = frostKeygen(c, m.ids, t, true, sid)
+	case "cmp":
+		m.cm, m.ids = test.GenerateConfig(secp, n, t, c.Rng, nil)
+	case "doerner":
+		m.ids = genIDs(c, 2)
+		m.t = 1
+		m.dr, m.ds, res = doernerKeygen(c, m.ids[0], m.ids[1], sid)
+	}
+	return m, res
+}
+
+func (m *material) refresh(c *Ctx, sid []byte) (*material, sessionResult) {
+	out := &material{kind: m.kind, ids: m.ids, t: m.t}
+	hs := map[party.ID]protocol.Handler{}
+	var res sessionResult
+	mk := func(id party.ID, st protocol.StartFunc) bool {
+		h, err := protocol.NewMultiHandler(st, sid)
+		if err != nil {
+			res = sessionResult{Panic: "refresh start: " + err.Error()}
+			return false
+		}
+		hs[id] = h
+		return true
+	}
+	switch m.kind {
+	case "frost":
+		for _, id := range m.ids {
+			if !mk(id, frost.Refresh(m.fr[id], m.ids)) {
+				return out, res
+			}
+		}
+		res = runSessions(c, hs, randOrder(c), nil)
+		out.fr = map[party.ID]*frost.Config{}
+		for id, r := range res.Results {
+			if v, ok := r.(*frost.Config); ok {
+				out.fr[id] = v
+			}
+		}
+	case "frost-taproot":
+		for _, id := range m.ids {
+			if !mk(id, frost.RefreshTaproot(m.tp[id], m.ids)) {
+				return out, res
+			}
+		}
+		res = runSessions(c, hs, randOrder(c), nil)
+		out.tp = map[party.ID]*frost.TaprootConfig{}
+		for id, r := range res.Results {
+			if v, ok := r.(*frost.TaprootConfig); ok {
+				out.tp[id] = v
+			}
+		}
+	case "cmp":
+		for _, id := range m.ids {
+			if !mk(id, cmp.Refresh(m.cm[id], nil)) {
+				return out, res
+			}
+		}
+		res = runSessions(c, hs, randOrder(c), nil)
+		out.cm = map[party.ID]*cmp.Config{}
+		for id, r := range res.Results {
+			if v, ok := r.(*cmp.Config); ok {
+				out.cm[id] = v
+			}
+		}
+	case "doerner":
+		a, b := m.ids[0], m.ids[1]
+		hr, e1 := protocol.NewTwoPartyHandler(doerner.RefreshReceiver(m.dr, a, b, nil), sid, true)
+		hsn, e2 := protocol.NewTwoPartyHandler(doerner.RefreshSender(m.ds, b, a, nil), sid, false)
+		if e1 != nil || e2 != nil {
+			return out, sessionResult{Panic: "refresh start failed"}
+		}
+		res = runSessions(c, map[party.ID]protocol.Handler{a: hr, b: hsn}, randOrder(c), nil)
+		out.dr, _ = res.Results[a].(*doerner.ConfigReceiver)
+		out.ds, _ = res.Results[b].(*doerner.ConfigSender)
+	}
+	return out, res
+}
+
+// sign with per-signer material taken from `own` (stale signers can be mixed in)
+func signMixed(c *Ctx, kind string, pick func(id party.ID) *material, signers party.IDSlice, msg, sid []byte, label, expect string) {
+	hs := map[party.ID]protocol.Handler{}
+	var twoA, twoB party.ID
+	startErr := ""
+	res0 := Guard(func() interface{} {
+		for i, id := range signers {
+			m := pick(id)
+			var h protocol.Handler
+			var err error
+			switch kind {
+			case "frost":
+				h, err = protocol.NewMultiHandler(frost.Sign(m.fr[id], signers, msg), sid)
+			case "frost-taproot":
+				h, err = protocol.NewMultiHandler(frost.SignTaproot(m.tp[id], signers, msg), sid)
+			case "cmp":
+				h, err = protocol.NewMultiHandler(cmp.Sign(m.cm[id], signers, msg, nil), sid)
+			case "doerner":
+				if i == 0 {
+					twoA, twoB = signers[0], signers[1]
+					h, err = protocol.NewTwoPartyHandler(doerner.SignReceiver(m.dr, twoA, twoB, msg, nil), sid, true)
+				} else {
+					h, err = protocol.NewTwoPartyHandler(doerner.SignSender(m.ds, twoB, twoA, msg, nil), sid, false)
+				}
+			}
+			if err != nil {
+				startErr = err.Error()
+				return nil
+			}
+			hs[id] = h
+		}
+		return nil
+	})
+	if res0 != nil {
+		c.Emit("sign", J{"kind": kind, "label": label}, res0)
+		return
+	}
+	base := pick(signers[0])
+	in := J{"kind": kind, "label": label, "msg": hx(msg), "signers": idsHex(signers), "expect": expect}
+	switch kind {
+	case "frost":
+		in["pub"] = ptHex(base.fr[signers[0]].PublicKey)
+	case "frost-taproot":
+		in["xonly"] = hx(base.tp[signers[0]].PublicKey)
+	case "cmp":
+		in["pub"] = ptHex(base.cm[signers[0]].PublicPoint())
+	case "doerner":
+		in["pub"] = ptHex(base.dr.Public)
+	}
+	if startErr != "" {
+		in["start_error"] = startErr
+		in["sigs"] = []J{}
+		in["errors"] = J{}
+		if expect == "none" { // a refused start is a fine way of not producing a signature
+			delete(in, "start_error")
+			in["refused_at_start"] = startErr
+		}
+		c.Emit("sign", in, J{"ok": true})
+		return
+	}
+	res := runSessions(c, hs, randOrder(c), nil)
+	sigs := []J{}
+	for _, id := range signers {
+		r, ok := res.Results[id]
+		if !ok {
+			continue
+		}
+		switch v := r.(type) {
+		case frost.Signature:
+			sigs = append(sigs, J{"id": hx([]byte(id)), "R": ptHex(v.R), "z": scHex(frostSigZ(v))})
+		case taproot.Signature:
+			sigs = append(sigs, J{"id": hx([]byte(id)), "sig": hx(v)})
+		case *ecdsa.Signature:
+			sigs = append(sigs, J{"id": hx([]byte(id)), "R": ptHex(v.R), "s": scHex(v.S)})
+		}
+	}
+	in["sigs"] = sigs
+	in["errors"] = errsJ(res)
+	var impl interface{} = J{"ok": true}
+	if res.Panic != "" {
+		impl = J{"outcome": "PANIC", "detail": res.Panic}
+	}
+	c.Emit("sign", in, impl)
+	c.Count("sess/sign/" + kind + "/" + label)
+}
+
+func (m *material) derive(i uint32) (*material, string) {
+	out := &material{kind: m.kind, ids: m.ids, t: m.t}
+	var firstErr string
+	note := func(err error) {
+		if err != nil && firstErr == "" {
+			firstErr = err.Error()
+		}
+	}
+	switch m.kind {
+	case "frost":
+		out.fr = map[party.ID]*frost.Config{}
+		for id, cfg := range m.fr {
+			d, err := cfg.DeriveChild(i)
+			note(err)
+			if err == nil {
+				out.fr[id] = d
+			}
+		}
+	case "frost-taproot":
+		out.tp = map[party.ID]*frost.TaprootConfig{}
+		for id, cfg := range m.tp {
+			d, err := cfg.DeriveChild(i)
+			note(err)
+			if err == nil {
+				out.tp[id] = d
+			}
+		}
+	case "cmp":
+		out.cm = map[party.ID]*cmp.Config{}
+		for id, cfg := range m.cm {
+			d, err := cfg.DeriveBIP32(i)
+			note(err)
+			if err == nil {
+				out.cm[id] = d
+			}
+		}
+	case "doerner":
+		var e1, e2 error
+		out.dr, e1 = m.dr.DeriveBIP32(i)
+		out.ds, e2 = m.ds.DeriveBIP32(i)
+		note(e1)
+		note(e2)
+	}
+	return out, firstErr
+}
+
+func kindsFor(c *Ctx, i int) (string, int, int) {
+	kinds := []string{"frost", "frost-taproot", "doerner", "cmp"}
+	k := kinds[i%4]
+	n := 2 + c.Intn(3)
+	if k == "cmp" && n > 3 {
+		n = 3
+	}
+	t := c.Intn(n)
+	if k == "doerner" {
+		n, t = 2, 1
+	}
+	return k, n, t
+}
+
+func init() {
+	register("sess-refresh", func(c *Ctx) {
+		installPrimeHook(c.Intn(40))
+		for i := 0; i < c.N; i++ {
+			kind, n, t := kindsFor(c, i)
+			if kind == "cmp" && c.Tier != "thorough" && i > 4 {
+				continue
+			}
+			sid := c.Bytes(8)
+			m0, res := newMaterial(c, kind, n, t, sid)
+			if !m0.complete() {
+				emitKeygen(c, kind, m0.ids, t, m0.dump(), res, nil)
+				continue
+			}
+			cur := m0
+			steps := 1 + c.Intn(2)
+			if c.Tier == "thorough" {
+				steps = 1 + c.Intn(3)
+			}
+			for s := 0; s < steps; s++ {
+				before := cur.dump()
+				nxt, res := cur.refresh(c, c.Bytes(8))
+				in := J{"kind": kind, "n": len(cur.ids), "t": cur.t, "ids": idsHex(cur.ids), "before": before, "parties": nxt.dump(),
+					"before_reread": cur.dump(), "errors": errsJ(res), "step": s}
+				var impl interface{} = J{"ok": true}
+				if res.Panic != "" {
+					impl = J{"outcome": "PANIC", "detail": res.Panic}
+				}
+				c.Emit("refresh", in, impl)
+				c.Count("sess/refresh/" + kind)
+				if !nxt.complete() {
+					break
+				}
+				// signing with refreshed material succeeds …
+				k := cur.t + 1 + c.Intn(len(cur.ids)-cur.t)
+				signers := subset(c, cur.ids, k)
+				if kind == "doerner" {
+					signers = cur.ids
+				}
+				msg := msgOfLen(c)
+				signMixed(c, kind, func(party.ID) *material { return nxt }, signers, msg, c.Bytes(8), "refreshed", "complete")
+				// … and a session in which one signer still uses pre-refresh material never yields a signature
+				if len(signers) >= 2 && (cur.t > 0 || kind == "doerner") { // with t = 0 the old share equals the new one
+					stale := signers[c.Intn(len(signers))]
+					old := cur
+					signMixed(c, kind, func(id party.ID) *material {
+						if id == stale {
+							return old
+						}
+						return nxt
+					}, signers, msg, c.Bytes(8), "stale-signer", "none")
+				}
+				cur = nxt
+			}
+		}
+	})
+	register("sess-derive", func(c *Ctx) {
+		installPrimeHook(c.Intn(40))
+		for i := 0; i < c.N; i++ {
+			kind, n, t := kindsFor(c, i)
+			if kind == "cmp" && c.Tier != "thorough" && i > 8 {
+				continue
+			}
+			sid := c.Bytes(8)
+			m0, res := newMaterial(c, kind, n, t, sid)
+			// after key generation every party holds the same 32-byte chain key
+			in := J{"kind": kind, "n": len(m0.ids), "t": m0.t, "ids": idsHex(m0.ids), "parties": m0.dump(), "errors": errsJ(res), "check": []string{"consistent", "chain"}}
+			c.Emit("keygen", in, J{"ok": true})
+			if !m0.complete() {
+				continue
+			}
+			cur := m0
+			depth := 1 + c.Intn(3)
+			for d := 0; d < depth; d++ {
+				idx := []uint32{0, 1, 2, 1<<31 - 1, uint32(c.Intn(1 << 31))}[c.Intn(5)]
+				var nxt *material
+				var derr string
+				r := Guard(func() interface{} { nxt, derr = cur.derive(idx); return nil })
+				if r != nil {
+					c.Emit("derive", J{"kind": kind, "index": idx, "depth": d}, r)
+					break
+				}
+				in := J{"kind": kind, "n": len(cur.ids), "t": cur.t, "ids": idsHex(cur.ids), "index": idx, "depth": d, "parent": cur.dump(),
+					"parties": nxt.dump(), "derive_error": derr}
+				c.Emit("derive", in, J{"ok": true})
+				c.Count("sess/derive/" + kind)
+				if derr != "" || !nxt.complete() {
+					break
+				}
+				k := cur.t + 1 + c.Intn(len(cur.ids)-cur.t)
+				signers := subset(c, cur.ids, k)
+				if kind == "doerner" {
+					signers = cur.ids
+				}
+				signMixed(c, kind, func(party.ID) *material { return nxt }, signers, msgOfLen(c), c.Bytes(8), "derived", "complete")
+				cur = nxt
+			}
+		}
+	})
+}
